@@ -652,6 +652,15 @@ def step {w : Nat} (st : St w) (line : String) : Res w :=
     | some (ma, ea), some (mb, eb) =>
       (st, fmtBool (ma.beq mb) ++ "," ++ fmtBool (mb.beq ma), fmtBool (decide (ea = eb)) ++ "," ++ fmtBool (decide (eb = ea)))
     | _, _ => bad st
+  | ["seteq", "S", rb] =>
+    -- `PrefixSet == PrefixSet`: equal sequences of stored prefixes (the key type's own equality)
+    match st.get "S", st.get rb with
+    | some (ms, es), some (mb, eb) =>
+      let ks := ms.entries.map (·.1)
+      let kb := mb.entries.map (·.1)
+      (st, fmtBool (decide (ks = kb)) ++ "," ++ fmtBool (decide (kb = ks)),
+        fmtBool (decide (es.map (·.1) = eb.map (·.1))) ++ "," ++ fmtBool (decide (eb.map (·.1) = es.map (·.1))))
+    | _, _ => bad st
   | ["copy", ra, rb] =>
     match st.get ra with
     | some (ma, ea) => okok (st.set rb ma ea)
